@@ -60,11 +60,22 @@ func NewStats(stage string) *Stats {
 	return &Stats{Stage: stage, Classes: map[string]int64{}, Counters: map[string]int64{}, hashes: map[uint64]struct{}{}, sampleEvery: 1}
 }
 
-func (s *Stats) Class(name string)            { s.Classes[name]++ }
-func (s *Stats) ClassIf(c bool, name string)  { if c { s.Classes[name]++ } }
-func (s *Stats) Count(name string, n int64)   { s.Counters[name] += n }
-func (s *Stats) NonTrivial(h uint64)          { s.hashes[h] = struct{}{} }
-func (s *Stats) NonTrivialCount() int         { return len(s.hashes) }
+func (s *Stats) Class(name string) { s.Classes[name]++ }
+func (s *Stats) ClassIf(c bool, name string) {
+	if c {
+		s.Classes[name]++
+	}
+}
+func (s *Stats) Count(name string, n int64) { s.Counters[name] += n }
+func (s *Stats) NonTrivial(h uint64)        { s.hashes[h] = struct{}{} }
+func (s *Stats) NonTrivialCount() int       { return len(s.hashes) }
+
+// MergeHashes adds the non-trivial case hashes of another accumulator.
+func (s *Stats) MergeHashes(o *Stats) {
+	for h := range o.hashes {
+		s.hashes[h] = struct{}{}
+	}
+}
 
 // Sample keeps up to 5 cases, thinning out as the run gets longer so that the
 // samples are spread over the run rather than being the first five.
@@ -138,8 +149,14 @@ func Hash(parts ...interface{}) uint64 {
 
 // Env helpers -----------------------------------------------------------------
 
-func Prop() string   { return os.Getenv("VERIF_PROP") }
-func Tier() string   { t := os.Getenv("VERIF_TIER"); if t == "" { return "quick" }; return t }
+func Prop() string { return os.Getenv("VERIF_PROP") }
+func Tier() string {
+	t := os.Getenv("VERIF_TIER")
+	if t == "" {
+		return "quick"
+	}
+	return t
+}
 func Thorough() bool { return Tier() == "thorough" }
 
 func EnvInt(name string, def int) int {
